@@ -586,18 +586,19 @@ class PathFinder(object):
             I = fn.insts.get(o[1])
             if I is None:
                 return o
-            if I.op == "phi" and I.id in st.phis:
+            if I.id in st.phis:
                 o = st.phis[I.id]
                 continue
-            if I.op in ("zext", "sext", "trunc", "freeze") :
-                # keep going through bool widenings only when source is i1/i8 conversions
-                src = I.ops[0]
-                if I.op in ("zext", "freeze") or (I.op == "trunc"):
-                    so = self.resolve(src, st)
-                    if so[0] == "c":
-                        v = int(so[1])
-                        w = I.d.get("bits", 64)
-                        return ["c", v & ((1 << w) - 1), w]
+            if I.op in ("zext", "sext", "trunc", "freeze"):
+                so = self.resolve(I.ops[0], st)
+                if so[0] == "c":
+                    v = int(so[1])
+                    w = I.d.get("bits", 64)
+                    if I.op == "sext":
+                        sw = so[2]
+                        if v >= 1 << (sw - 1):
+                            v -= 1 << sw
+                    return ["c", v & ((1 << w) - 1), w]
                 return o
             if I.is_call and I.callee in self.const_ret:
                 return ["c", self.const_ret[I.callee], I.d.get("bits", 32)]
@@ -847,9 +848,13 @@ def expr(fn, o, depth=6, phis=None):
         if s is not None:
             return repr(s.decode("latin1"))
         return "%s(%s)" % (o[1], ",".join(expr(fn, x, depth - 1, phis) for x in o[2]))
+    if o[0] == "x":
+        return o[1]
     if o[0] != "v":
         return o[0]
     vid = o[1]
+    if phis and vid in phis and vid >= fn.nparams and fn.insts[vid].op != "phi":
+        return expr(fn, phis[vid], depth - 1, phis)
     if vid < fn.nparams:
         return fn.params[vid]["name"] or "arg%d" % vid
     if depth <= 0:
@@ -889,16 +894,35 @@ def expr(fn, o, depth=6, phis=None):
     return "%s(%s)" % (I.op, ",".join(expr(fn, x, depth - 1, phis) for x in I.ops))
 
 
-def enumerate_paths(fn, max_paths=5000, const_ret=None):
+def enumerate_paths(fn, max_paths=5000, const_ret=None, cells=None):
     """all acyclic entry->ret paths with correlated-branch pruning.
     Yields (literals, ret_operand_resolved, PathState, trail) where literals is
     a list of (atom(pred,a,b) , described string, truth)."""
     pf = PathFinder(fn, const_ret=const_ret)
     out = []
 
+    cellset = set(cells or [])
+
+    def step_block(b, st):
+        """interpret memory cells (*param) and record effect events"""
+        if not cellset:
+            return
+        for I in fn.blocks[b]:
+            if I.op == "load" and I.ops[0][0] == "v" and I.ops[0][1] in cellset:
+                st.phis[I.id] = st.phis.get(("cell", I.ops[0][1]), ["x", "*%s@entry" % fn.vname(I.ops[0][1])])
+            elif I.op == "store" and I.ops[1][0] == "v" and I.ops[1][1] in cellset:
+                v = pf.resolve(I.ops[0], st)
+                st.phis[("cell", I.ops[1][1])] = v
+                st.phis.setdefault("events", [])
+                st.phis["events"] = st.phis["events"] + [("store", I, [v, I.ops[1]])]
+            elif I.is_call and not (I.callee or "").startswith("llvm.dbg"):
+                args = [pf.resolve(a, st) for a in I.ops]
+                st.phis["events"] = st.phis.get("events", []) + [("call", I, args)]
+
     def rec(b, st, lits, visited, trail):
         if len(out) > max_paths:
             raise RuntimeError("too many paths in %s" % fn.name)
+        step_block(b, st)
         T = fn.blocks[b][-1]
         trail = trail + [b]
         if T.op == "ret":
